@@ -174,7 +174,7 @@ def execOp (idx : Nat) (toks : List String) : PM Unit := do
     | _, _ => fail s!"op {idx}: bad sel0"
   | ["rangebits", n, w] =>
     match n.toNat?, W w with
-    | some n, some w => if n ≤ 256 then runC (componentRangeBits n w) else fail s!"op {idx}: width"
+    | some n, some w => if n ≤ Generated.RANGE_MAX_BITS then runC (componentRangeBits n w) else fail s!"op {idx}: width"
     | _, _ => fail s!"op {idx}: bad rangebits"
   | ["range", n, w] =>
     match n.toNat?, W w with
@@ -187,19 +187,19 @@ def execOp (idx : Nat) (toks : List String) : PM Unit := do
   | ["and", n, a, b] =>
     match n.toNat?, W a, W b with
     | some n, some a, some b =>
-      if n ≤ 127 then do let w ← runC (appendLogicComponent n a b false); pushRegs [w]
+      if n ≤ Generated.LOGIC_MAX_PAIRS then do let w ← runC (appendLogicComponent n a b false); pushRegs [w]
       else fail s!"op {idx}: width"
     | _, _, _ => fail s!"op {idx}: bad and"
   | ["xor", n, a, b] =>
     match n.toNat?, W a, W b with
     | some n, some a, some b =>
-      if n ≤ 127 then do let w ← runC (appendLogicComponent n a b true); pushRegs [w]
+      if n ≤ Generated.LOGIC_MAX_PAIRS then do let w ← runC (appendLogicComponent n a b true); pushRegs [w]
       else fail s!"op {idx}: width"
     | _, _, _ => fail s!"op {idx}: bad xor"
   | ["trunc", n, w] =>
     match n.toNat?, W w with
     | some n, some w =>
-      if n ≤ 254 then do let o ← runC (componentTruncate n w); pushRegs [o]
+      if n ≤ Generated.TRUNCATE_MAX_BITS then do let o ← runC (componentTruncate n w); pushRegs [o]
       else fail s!"op {idx}: width"
     | _, _ => fail s!"op {idx}: bad trunc"
   | ["bindsplit", n, inp, low] =>
@@ -210,7 +210,7 @@ def execOp (idx : Nat) (toks : List String) : PM Unit := do
   | ["decomp", n, w] =>
     match n.toNat?, W w with
     | some n, some w =>
-      if 0 < n ∧ n ≤ 256 then do let bs ← runC (componentDecomposition n w); pushRegs bs
+      if 0 < n ∧ n ≤ Generated.DECOMP_MAX_BITS then do let bs ← runC (componentDecomposition n w); pushRegs bs
       else fail s!"op {idx}: width"
     | _, _ => fail s!"op {idx}: bad decomp"
   | ["selpt", bit, ax, ay, bx, by_] =>
@@ -222,7 +222,7 @@ def execOp (idx : Nat) (toks : List String) : PM Unit := do
     match W s_, fe? u, fe? v, optionAll digit? ds.toList with
     | some s_, some u, some v, some ds =>
       if ds.length == 256 then do
-        let r ← runC (appendFixedBaseSignedDigits s_ (u, v) ds.toArray); handleErr idx 2 (ptOf r)
+        let r ← runC (appendFixedBaseSignedDigits s_ (u, v) ds); handleErr idx 2 (ptOf r)
       else fail s!"op {idx}: digits length"
     | _, _, _, _ => fail s!"op {idx}: bad fbdigits"
   | [op, u, v, z, t1, t2] =>
@@ -307,8 +307,9 @@ def summary (s : PState) : String :=
     let hw := hashList c.wit.toList
     let hp := hashList ((sortedPis c).flatMap fun p => [p.1, p.2])
     let hr := hashList s.rets.toList
+    let rv := hashList (s.regs.toList.map c.val)
     let errs := String.intercalate "," (s.errs.toList.map fun (i, e) => s!"{i}:{e}")
-    s!"gates={c.gates.size} wit={c.wit.size} pis={c.pis.size} hg={toHex hg} hw={toHex hw} hp={toHex hp} hr={toHex hr} errs=[{errs}]"
+    s!"gates={c.gates.size} wit={c.wit.size} pis={c.pis.size} hg={toHex hg} hw={toHex hw} hp={toHex hp} hr={toHex hr} rv={toHex rv} errs=[{errs}]"
 
 def satSummary (s : PState) : String :=
   match s.c.firstFailure with
